@@ -1,5 +1,5 @@
 """check replay <file>: re-execute a reported storage/view trace on the real library and re-validate it;
-pool / numeric replay files are re-validated against their trace specification (the recorded behaviour is re-judged)."""
+numeric replay files are re-executed on their recorded inputs; pool replay files (sync.Pool is not deterministic) are re-judged against PoolTrace."""
 import json, os, shutil, sys
 from core import *
 import signal_family as sf
@@ -21,7 +21,9 @@ def main(rest, a):
         mm, tot = validate_files(ctx, "PoolTrace", pool_family.POOL_TRACE_CFG, [path])
     elif first.get("op") == "Start":
         import num_family
-        mm, tot = validate_files(ctx, "NumTrace", num_family.NUM_TRACE_CFG, [path])
+        st = ctx.record("numreplay", extra=["--script", path], shards=1)
+        print("re-executed the recorded inputs on the real library (built from %s): %d events" % (REPO, st["events"]))
+        mm, tot = validate_files(ctx, "NumTrace", num_family.NUM_TRACE_CFG, st["files"])
     else:
         st = ctx.record("replay", extra=["--script", path], shards=1)
         print("re-executed %d events on the real library (built from %s)" % (st["events"], REPO))
